@@ -693,6 +693,14 @@ func (f *fakeCompressor) Write(p []byte) (int, error) {
 }
 func (f *fakeCompressor) Flush() error { _, err := f.w.Write(f.suffix); return err }
 
+// fakeCloser is a fakeCompressor whose Close emits an epilogue.
+type fakeCloser struct {
+	fakeCompressor
+	epilogue []byte
+}
+
+func (f *fakeCloser) Close() error { _, err := f.w.Write(f.epilogue); return err }
+
 func subTailLogic() mon.Sub {
 	suffixes := [][]byte{tail, nil, {0, 0, 0xff}, {0, 0, 0xff, 0xfe}, {0xff, 0xff, 0, 0}, {0, 0, 0xff, 0xff, 0}, {1, 0, 0, 0xff, 0xff}}
 	return mon.Sub{
@@ -753,6 +761,34 @@ func subTailLogic() mon.Sub {
 						c.Fail("tail/error-not-sticky", "Write succeeds after the bad-compressor error", det)
 						return
 					}
+				}
+			}
+			// ... and the compressor's CLOSE epilogue counts as well (compress/flate's Close emits an empty stored final
+			// block, 01 00 00 ff ff; another encoder may end its stream differently): Write, Flush, Close - whatever the
+			// compressor emitted in all must end with 00 00 ff ff, or Close reports it; what reached the destination is
+			// everything but those four bytes
+			if good {
+				epi := [][]byte{{0x01, 0x00, 0x00, 0xff, 0xff}, {0x03, 0x00}, {}, {0x00}, {0x00, 0x00, 0xff, 0xff}, {0xff, 0xff}}[c.I/len(suffixes)%6]
+				var d2 bytes.Buffer
+				w2 := wsflate.NewWriter(&d2, func(w io.Writer) wsflate.Compressor {
+					return &fakeCloser{fakeCompressor{w: w, suffix: sfx, chunk: chunk}, epi}
+				})
+				c.Count(1)
+				_, e1 := w2.Write(msg)
+				e2 := w2.Flush()
+				e3 := w2.Close()
+				total := append(append(append([]byte(nil), msg...), sfx...), epi...)
+				det["close_epilogue"], det["close_err"] = fmt.Sprintf("%x", epi), fmt.Sprint(e3)
+				switch {
+				case e1 != nil || e2 != nil:
+					c.Fail("tail/close/early-error", fmt.Sprintf("Write / Flush failed with a conforming compressor: %v / %v", e1, e2), det)
+					return
+				case !bytes.HasSuffix(total, tail) && e3 == nil && w2.Err() == nil:
+					c.Fail("tail/close/bad-epilogue-accepted", "the compressor's output, Close epilogue included, does not end with 00 00 ff ff and neither Close nor Err reports it", det)
+					return
+				case bytes.HasSuffix(total, tail) && (e3 != nil || !bytes.Equal(d2.Bytes(), total[:len(total)-4])):
+					c.Fail("tail/close/good-epilogue", fmt.Sprintf("Close with an epilogue ending in 00 00 ff ff: err=%v, destination holds %d bytes, want %d", e3, d2.Len(), len(total)-4), det)
+					return
 				}
 			}
 			// the same compressor behind the frame-level helpers - in a process where OTHER helpers (the default one,
